@@ -118,7 +118,7 @@ partial def showTV : Ty → V → String
     let items := l.toList.map (showTV t)
     let items := match k with | .set => (sortStrings items).eraseDups | .bag => sortStrings items | _ => items
     "(q" ++ String.join (items.map (" " ++ ·)) ++ ")"
-  | .map k x, .seq l =>
+  | .map _ k x, .seq l =>
     -- a map keeps the last value inserted for a key; iteration order is not part of the value
     let pairs : List (String × String) := l.toList.map (fun p =>
       match p with
@@ -185,7 +185,8 @@ def parseNats : List Sx → Option (List Nat)
 abbrev TyEnv := List (String × Ty)
 
 partial def parseTy (env : TyEnv) : Sx → Option Ty
-  | .atom "str" => some (.str none)
+  | .atom "str" => some (.str none true)
+  | .atom "astr" => some (.str none false)
   | .atom "ip" => some .ip
   | .atom "sock" => some .sock
   | .atom "canary" => some .canary
@@ -193,8 +194,10 @@ partial def parseTy (env : TyEnv) : Sx → Option Ty
   | .atom "dur" => some .duration
   | .atom "ioerr" => some .ioErr
   | .list [.atom "p", .atom p] => (parsePrim p).map .prim
-  | .list [.atom "capstr", .atom n] => n.toNat?.map (fun n => .str (some n))
+  | .list [.atom "capstr", .atom n] => n.toNat?.map (fun n => .str (some n) false)
   | .list [.atom "vec", t] => (parseTy env t).map (.seq .vec)
+  | .list [.atom "slice", t] => (parseTy env t).map (.seq .slice)
+  | .list [.atom "iset", t] => (parseTy env t).map (.seq .indexSet)
   | .list [.atom "seq", t] => (parseTy env t).map (.seq .plain)
   | .list [.atom "set", t] => (parseTy env t).map (.seq .set)
   | .list [.atom "bag", t] => (parseTy env t).map (.seq .bag)
@@ -204,15 +207,20 @@ partial def parseTy (env : TyEnv) : Sx → Option Ty
     | _, _ => none
   | .list [.atom "map", k, v] =>
     match parseTy env k, parseTy env v with
-    | some k, some v => some (.map k v)
+    | some k, some v => some (.map false k v)
     | _, _ => none
   | .list [.atom "opt", t] => (parseTy env t).map .opt
   | .list [.atom "res", a, b] =>
     match parseTy env a, parseTy env b with
     | some a, some b => some (.res a b)
     | _, _ => none
-  | .list [.atom "wrap", t] => (parseTy env t).map (.wrap false)
-  | .list [.atom "cell", t] => (parseTy env t).map (.wrap true)
+  | .list [.atom "bmap", k, v] =>
+    match parseTy env k, parseTy env v with
+    | some k, some v => some (.map true k v)
+    | _, _ => none
+  | .list [.atom "wrap", t] => (parseTy env t).map (.wrap .plain)
+  | .list [.atom "box", t] => (parseTy env t).map (.wrap .boxed)
+  | .list [.atom "cell", t] => (parseTy env t).map (.wrap .cell)
   | .list (.atom "tup" :: lay :: .list (.atom "offs" :: offs) :: ts) =>
     match parseLay lay, parseNats offs, parseTyL ts with
     | some lay, some offs, some ts => some (.tup lay offs ts)
